@@ -252,41 +252,11 @@ func rC05Matcher(w *World, r *Report) {
 	}
 }
 
-// ambiguityIf finds `len(matches) > 1` on the matcher's result.
+// ambiguityIf finds the test that singles out `len(matches) > 1` on the matcher's result.
 func (m *parserModel) ambiguityIf() (*ssa.If, int, *ssa.Call) {
-	for _, b := range m.fn.Blocks {
-		if len(b.Instrs) == 0 {
-			continue
-		}
-		iff, ok := b.Instrs[len(b.Instrs)-1].(*ssa.If)
-		if !ok {
-			continue
-		}
-		for _, f := range condFacts(iff.Cond, true, iff) {
-			if f.Y == nil {
-				continue
-			}
-			c, ok := f.X.(*ssa.Call)
-			if !ok || calleeName(c) != "builtin:len" {
-				continue
-			}
-			mc, ok := c.Call.Args[0].(*ssa.Call)
-			if !ok || calleeName(mc) != nMatcher {
-				continue
-			}
-			k, ok := constInt(f.Y)
-			if !ok {
-				continue
-			}
-			switch {
-			case f.Op == token.GTR && k == 1, f.Op == token.GEQ && k == 2:
-				return iff, 0, mc
-			case f.Op == token.LEQ && k == 1, f.Op == token.LSS && k == 2:
-				return iff, 1, mc
-			}
-		}
-	}
-	return nil, 0, nil
+	return m.matchLenTest(func(on, other [5]bool) bool {
+		return on == [5]bool{false, false, true, true, true} && !other[2] && !other[3] && !other[4]
+	})
 }
 
 func rC05ParserGates(w *World, r *Report) {
